@@ -1,5 +1,7 @@
 import LzmaVerif.Proofs.Stream
 import LzmaVerif.Proofs.Split
+import LzmaVerif.Proofs.LzDecoder
+import LzmaVerif.Proofs.EncWindow
 /-!
 # C07 — results do not depend on how callers split writes, flushes and reads
 
@@ -60,5 +62,55 @@ theorem container_cutting_partition_free (lim : Nat) (hl : 2 ≤ lim) (p q : Lis
     Split.mtUnits lim p = Split.mtUnits lim q := by
   refine ⟨Split.xzBlocks_partition_independent lim hl p q h, ?_, Split.mtUnits_partition_independent lim (by omega) p q h⟩
   rw [Split.lzipMembers_eq lim hl p, Split.lzipMembers_eq lim hl q, h]
+
+/-! ## The LZMA readers: the cyclic dictionary against the history model
+
+`lz_reader_partition_free`: the decoder's cyclic dictionary buffer (`lz::LZDecoder`: put_byte, repeat with
+its wrap-around / direct / overlapping copy branches, matches cut by the read limit and completed by
+`repeat_pending`, `flush` wrapping the position) driven by the reader loop hands out, for EVERY list of read
+sizes with the same sum, the same bytes – namely the one-shot history of the symbols (`lz_reader_refines`).
+The model is tied to the code by the hook `verif_hooks::lz_decoder_script` (driver `lzdec.run`). -/
+
+theorem lz_reader_refines (dict : Nat) (preset : Option (List Nat)) (syms : List LzDecoder.Sym) (sizes : List Nat)
+    (hd : 1 ≤ dict) (hadm : LzDecoder.Admissible dict (LzDecoder.presetUsed dict preset).toArray syms) :
+    ∃ s' rest, LzDecoder.readAll (LzDecoder.new dict preset) sizes syms =
+      .ok (((LzDecoder.applySyms (LzDecoder.presetUsed dict preset).toArray syms).toList.drop
+              (LzDecoder.presetUsed dict preset).length).take sizes.sum, s', rest) :=
+  LzDecoder.readAll_refine dict preset syms sizes hd hadm
+
+theorem lz_reader_partition_free (dict : Nat) (preset : Option (List Nat)) (syms : List LzDecoder.Sym)
+    (sizes₁ sizes₂ : List Nat) (hd : 1 ≤ dict)
+    (hadm : LzDecoder.Admissible dict (LzDecoder.presetUsed dict preset).toArray syms)
+    (hsum : sizes₁.sum = sizes₂.sum) :
+    (LzDecoder.readAll (LzDecoder.new dict preset) sizes₁ syms).map (·.1) =
+      (LzDecoder.readAll (LzDecoder.new dict preset) sizes₂ syms).map (·.1) :=
+  LzDecoder.readAll_partition_free dict preset syms sizes₁ sizes₂ hd hadm hsum
+
+/-! ## The LZMA writers: what the search can see does not depend on the write partition
+
+The encoder's search (match finders, parsers) is not modelled; `encoder_view_partition_free` shows that it is
+always shown the same VIEW: for every oracle standing for the search (any function of the views seen so far,
+constrained only by the read-ahead bound of its mode) and any two partitions of the same bytes into write
+calls, the sequence of views (position, look-back of min(pos, dict) bytes, look-ahead capped by what the code
+can observe, match length limit) at every `move_pos` is identical – window moves, pending bytes and the
+finishing flag included.  `encoder_lookahead_constants`: the constants EXTRA_SIZE_AFTER re-extracted from the
+source cover the read-ahead of both modes; `encoder_small_lookahead_witness`: with the constant reduced by
+MATCH_LEN_MAX (a seeded change) the views DO depend on the partition. -/
+
+theorem encoder_view_partition_free (dict nice : Nat) (mode : EncWindow.Mode) (mf : EncWindow.MF) (lzma2 : Bool)
+    (hd : Consts.DICT_SIZE_MIN ≤ dict) (hn1 : 4 ≤ nice) (hn2 : nice ≤ Consts.MATCH_LEN_MAX)
+    (O : EncWindow.Oracle) (parts₁ parts₂ : List (List Nat)) (h : parts₁.flatten = parts₂.flatten) :
+    EncWindow.traceOf EncWindow.listBuf (EncWindow.mkParams dict nice mode mf lzma2) O parts₁ =
+      EncWindow.traceOf EncWindow.listBuf (EncWindow.mkParams dict nice mode mf lzma2) O parts₂ :=
+  EncWindow.view_independence_real dict nice mode mf lzma2 hd hn1 hn2 O parts₁ parts₂ h
+
+theorem encoder_lookahead_constants (m : EncWindow.Mode) :
+    m.maxAhead ≤ m.extraAfter ∧ m.availCap ≤ m.extraAfter + Consts.MATCH_LEN_MAX :=
+  EncWindow.extra_after_covers_search m
+
+theorem encoder_small_lookahead_witness :
+    ((EncWindow.traceOf EncWindow.noBuf EncWindow.seededFast EncWindow.greedyMax (EncWindow.cyclicParts 0 [546])).map (·.matchLimit))[273]? = some 273 ∧
+    ((EncWindow.traceOf EncWindow.noBuf EncWindow.seededFast EncWindow.greedyMax (EncWindow.cyclicParts 0 [274, 272])).map (·.matchLimit))[273]? = some 0 :=
+  EncWindow.small_extra_after_breaks_independence
 
 end LzmaVerif.Props.C07
